@@ -171,7 +171,21 @@ def run_property(pid, thorough, seed, res):
             rp = check.write_replay(pid, "harness-build", dict(
                 what="the correspondence harness no longer compiles against /repo (%s build)" % ("assert" if dbg else "NDEBUG"),
                 compiler_output=exe[-6000:]))
-            res.violation(rp, "correspondence broken: harness does not compile", no_input=True)
+            named = []
+            if pid == "C19":
+                # the API matrix does not need the harness: it names the instantiation that stopped compiling
+                try:
+                    _, cv, _ = custom_c19({}, r, thorough, res)
+                    for v in cv:
+                        if not check.match_known(v, known):
+                            named.append(v)
+                except Exception as e:      # noqa
+                    res.notes["api_matrix_error"] = repr(e)[:300]
+            for v in named[:12]:
+                res.violation(check.write_replay(pid, "l2", dict(violation=v)),
+                              "%s %s/%s: %s" % (v["group"], v["op"], v["output"], v["what"][:160]))
+            if not named:
+                res.violation(rp, "correspondence broken: harness does not compile", no_input=True)
             return res.finish(LEVEL[pid], proof_cov(po))
         builds[dbg] = exe
 
